@@ -11,6 +11,7 @@ BASE = "yowsup/layers/axolotl/layer_base.py"
 R = "assumed contract of python-axolotl (read from the installed source: SessionBuilder.processPreKeyBundle checks " \
     "identityKeyStore.isTrustedIdentity first and raises UntrustedIdentityException(name, key) before storing anything)"
 
+P_AUTOTRUST = "org.openwhatsapp.yowsup.prop.axolotl.INDENTITY_AUTOTRUST"
 fields("AxolotlManager", _store=Opaque("store"), _username=Str)
 fields("SessionBuilder", store=Opaque("store"), recipient=Opaque("name"))
 extern("store.saveIdentity", event="store.saveIdentity", raises=True)
@@ -119,6 +120,8 @@ def handleEncMessage(self: Obj("AxolotlReceivelayer"), node: Obj("ProtocolTreeNo
     ensures(n_events("toLower") <= 1 and n_events("send_retry") <= 1 and n_events("getKeysFor") <= 1)
     # the pinned key is only ever touched when the application switched on automatic trust
     ensures(implies(n_events("manager.trust_identity") >= 1, truthy(event_result("getProp", 0))))
+    # ... and "switched on" means the stack property, with default OFF: an application that never set it gets the refusal
+    ensures(implies(n_events("getProp") >= 1, event_arg("getProp", 0, 0) == P_AUTOTRUST and event_arg("getProp", 0, 1) == False))
     # a receipt is sent from here only for a duplicate, and then it names this message (id, to, participant)
     ensures(implies(n_events("toLower") == 1, event_arg("toLower", 0).tag == "receipt"
                     and attr(event_arg("toLower", 0), "id") == attr(node, "id") and attr(event_arg("toLower", 0), "to") == attr(node, "from")))
